@@ -27,6 +27,10 @@ def P(stages, tb=None, assumptions=None, profiles=None):
 PROPS = {
     'C02': P([disc('cms')]),
     'C17': P([disc('hll')]),
+    'C09': P([disc('lossy')], assumptions=['with_width(w): epsilon() = fl(1/w); theorems use the exact rational relation 1 <= eps*width, the oracle uses exact integer arithmetic on width (the one-rounding difference of fl(1/w) is not modelled)', 'query(threshold): the bound ceil((threshold-eps)*n) is a float computation; generated thresholds avoid values whose bound is within 1e-6 of an integer']),
+    'C18': P([disc('res')]),
+    'C05': P([disc('res')]),
+    'C10': P([disc('heap')]),
     'C01': P([disc('bloom', 'cuckoo', 'qf')]),
     'C06': P([disc('bloom', 'cms', 'hll', 'cuckoo', 'qf')]),
     'C12': P([disc('cuckoo', 'qf')]),
